@@ -154,7 +154,7 @@ impl Check for C19 {
     }
     fn required_probes(&self) -> Vec<&'static str> { vec!["ring:FF2", "ring:FF2[H]", "mirrored"] }
     fn max_steps(&self) -> usize { 50_000_000 }
-    fn runs(&self, tier: &str) -> u64 { if tier == "quick" { 1_200 } else { 300_000 } }
+    fn runs(&self, tier: &str) -> u64 { if tier == "quick" { 4_000 } else { 250_000 } }
     fn gen_case(&self, rng: &mut Rng, _idx: u64, tier: &str) -> Value {
         let max_x = if tier == "quick" { 8 } else { 9 };
         let cands: Vec<&(&str, &[[u32; 4]])> = SINV_TABLE.iter().filter(|(_, pd)| pd.len() <= max_x).collect();
@@ -189,6 +189,7 @@ impl Check for C19 {
         }
         rep
     }
+    fn has_cross_check(&self) -> bool { true }
     fn cross_check(&self, runs: &[(u64, Value, RunReport)]) -> Vec<(u64, Violation)> {
         let mut seen: BTreeMap<(String, bool), (u64, (i32, i32))> = BTreeMap::new();
         let mut out = vec![];
